@@ -282,8 +282,10 @@ class Teardown:
         return st
 
     def on_counter_test(self, eng, st, box, field, op, c, truth, b):
-        if field == "weak" and ((op == "Eq" and c == "0" and truth) or (op == "Ne" and c == "0" and not truth) or (op == "Gt" and c == "0" and not truth) or (op == "Lt" and c == "1" and truth)):
-            return add(st, ("wz", box))
+        if field == "weak":
+            from interp import classes_for
+            if classes_for(op, c, truth) == frozenset("Z"):      # `== 0`, `< 1`, `!(> 0)`, `0 == ..` ...
+                return add(st, ("wz", box))
         return None
 
     def on_free(self, eng, ev, st):
